@@ -732,7 +732,7 @@ class HybridRenderer(FourierRenderer):
         im_gal = render_gaussian_pixel(
             self.X,
             self.Y,
-            amps[self.w_real],
+            amps[self.w_real] * jnp.sum(self.pixel_PSF),
             sigmas_obs[self.w_real],
             xc,
             yc,
